@@ -13,8 +13,8 @@ import (
 
 func init() {
 	register(&PropMeta{
-		ID:    "C04",
-		Level: "other",
+		ID:          "C04",
+		Level:       "other",
 		Explanation: "Decides the clauses of the rotation that are visible in the shape of the code: (R1) every modulus in the seat-manager package is the manager's own seat count and no integer literal takes part in circular seat arithmetic (the statement ranges over seat counts 2..10); (R2) in the rotation the new big blind is next-in-with-chips(old BB); with three or more active the small blind is the BB seat as read before the BB store and the dealer the SB seat as read before the SB store (after heads-up: nearest live seat before the new SB); with exactly two active the dealer is next-occupied(new BB) and SB the new dealer; short deck passes the dealer to next-occupied(old dealer); (R3) no path of the rotation to an error exit stores a seat id and the public wrapper refuses before calling it when positions were never initialised; (R4) every seat-id store is dominated by 'active count ≥ 2' and every refusal is conditioned on 'active count < 2' or an unsupported rule; (R5) each circular scan helper visits offsets 1..MaxSeat-1 from its start seat, returns the first seat satisfying exactly its predicate and the unset value otherwise; (R6) eligibility ≡ seated-in ∧ not waiting ∧ has chips, and the active count counts exactly those seats. NOT decided: nobody skipped / never backwards / three seats distinct over all reachable states and histories (numeric state exploration is another technique family); initPositions; isBetweenDealerBB arithmetic.",
 		Rules: map[string]string{
 			"R1": "modulus uniformity: every % in the seat-manager package is by the manager's MaxSeat; no integer literal (≥2) in circular seat arithmetic",
@@ -226,6 +226,7 @@ func checkC04(c *Ctx) {
 		}
 	}
 	c.Min("R1", "modulus sites in the seat-manager package", nMod, 5)
+	checkWrapCounters(c, "R1", func(f *ssa.Function) bool { return inSeatManagerPkg(p, f) }, 2)
 
 	// ---------------- R5 helpers
 	helpers := map[*ssa.Function]*scanHelper{}
@@ -712,4 +713,120 @@ func checkActiveCount(c *Ctx, f *ssa.Function) {
 func symIsParam(s *Sym, pr *ssa.Parameter) bool {
 	s = s.Strip()
 	return s.Kind == "param" && s.Name == pr.Name()
+}
+
+// checkWrapCounters: a loop counter that runs past one circle of seats (its start or
+// bound adds the seat count, e.g. `for i := d+1; i < bb+N; i++`) is not a seat id; it may
+// be used only (a) in its own step and loop test and (b) as the dividend of `% N`.
+// Any other use (direct comparison with a seat id, direct index) is a violation.
+// The seat count N of a function is whatever its `%` operators use as modulus.
+func checkWrapCounters(c *Ctx, rule string, inScope func(f *ssa.Function) bool, min int) {
+	p := c.P
+	n := 0
+	// the seat-count expressions of the scope: whatever its `%` operators use as modulus
+	mods := map[string]bool{}
+	for _, f := range p.Funcs {
+		if !inScope(f) {
+			continue
+		}
+		for _, b := range f.Blocks {
+			for _, in := range b.Instrs {
+				if bo, ok := in.(*ssa.BinOp); ok && bo.Op == token.REM {
+					mods[p.Sym(bo.Y).Strip().String()] = true
+				}
+			}
+		}
+		// parameters that receive the table's seat count (or its seat map) at a call site
+		for _, ci := range Calls(f) {
+			sc := ci.Common().StaticCallee()
+			if sc == nil || !p.IsRepoFunc(sc) {
+				continue
+			}
+			cs := p.CallSym(ci)
+			for i, a := range cs.Args {
+				if i >= len(sc.Params) {
+					break
+				}
+				as := a.Strip()
+				if as.IsField("TableMeta", "TableMaxSeatCount") {
+					mods[sc.Params[i].Name()] = true
+				}
+				if as.IsField("TableState", "SeatMap") {
+					mods["len("+sc.Params[i].Name()+")"] = true
+				}
+			}
+		}
+	}
+	for _, f := range p.Funcs {
+		if !inScope(f) {
+			continue
+		}
+		addsCount := func(s *Sym) bool {
+			if s == nil {
+				return false
+			}
+			return s.Contains(func(x *Sym) bool {
+				x = x.Strip()
+				if x.Kind != "binop" || (x.Name != "+" && x.Name != "-") {
+					return false
+				}
+				return mods[x.Args[0].Strip().String()] || mods[x.Args[1].Strip().String()]
+			})
+		}
+		seen := map[*ssa.Phi]bool{}
+		for _, b := range f.Blocks {
+			for _, in := range b.Instrs {
+				v, ok := in.(ssa.Value)
+				if !ok {
+					continue
+				}
+				ind := p.induction(v)
+				if ind == nil || seen[ind.Phi] {
+					continue
+				}
+				if !addsCount(ind.Bound) && !addsCount(ind.First) {
+					continue
+				}
+				seen[ind.Phi] = true
+				n++
+				bad := ""
+				refs := v.Referrers()
+				if refs != nil {
+					for _, r := range *refs {
+						switch x := r.(type) {
+						case *ssa.DebugRef, *ssa.Phi:
+						case *ssa.BinOp:
+							switch {
+							case x.Op == token.REM && x.X == v && mods[p.Sym(x.Y).Strip().String()]:
+							case (x.Op == token.ADD || x.Op == token.SUB) && x.X == v:
+								if _, isC := x.Y.(*ssa.Const); !isC {
+									bad = "arithmetic " + p.Sym(x).String()
+								}
+							case x.Op == token.LSS || x.Op == token.LEQ || x.Op == token.GTR || x.Op == token.GEQ:
+								// the loop test (either operand order)
+								isTest := false
+								if brefs := x.Referrers(); brefs != nil {
+									for _, br := range *brefs {
+										if _, isIf := br.(*ssa.If); isIf && ind.Bound != nil && (p.Sym(x.Y).String() == ind.Bound.String() || p.Sym(x.X).String() == ind.Bound.String()) {
+											isTest = true
+										}
+									}
+								}
+								if !isTest {
+									bad = "comparison " + p.Sym(x).String()
+								}
+							default:
+								bad = "used as " + p.Sym(x).String()
+							}
+						default:
+							bad = "used by " + instrText(p, r)
+						}
+					}
+				}
+				c.Check(bad == "", rule, "wrap-counter:"+f.Name()+"@"+fmt.Sprintf("b%d", ind.Phi.Block().Index), p.InstrPos(ind.Phi), "counter past one circle used only modulo the seat count",
+					"a loop counter that runs past the last seat ("+p.Sym(v).String()+") is used as if it were a seat id without being reduced modulo the seat count: "+bad)
+			}
+		}
+	}
+	c.Min(rule, "wrap-around loop counters", n, min)
 }
